@@ -911,7 +911,7 @@ theorem lookForRanges_lo_hi (k : Str) (a : Nat) (incA : Bool) (b : Nat) (incB : 
     lookForRanges [loCond k a incA, hiCond k b incB] = [window k a incA b incB] ∧
     lookForRanges [hiCond k b incB, loCond k a incA] = [window k a incA b incB] := by
   cases incA <;> cases incB <;>
-    simp [lookForRanges, addRange, loCond, hiCond, isRangeOp, operandNat, window]
+    simp [lookForRanges, addRange, updRange, loCond, hiCond, isRangeOp, operandNat, window]
 
 theorem inR_window (k : Str) (a : Nat) (incA : Bool) (b : Nat) (incB : Bool) (m : Nat)
     (ha : incA = false → a < maxInt64) :
